@@ -34,6 +34,7 @@ const (
 	ekExtraExtID         // one more external id than signatures need
 	ekTwoInputsOneSig    // two transactions with different input addresses, signed by the first one's key only
 	ekTwoInputsTwoSigs   // the same, signed by both keys (still not a legal batch: one input address per batch)
+	ekMalleatedTwin      // an RCD-e signed transfer followed by a third party's copy of it with the last signature byte altered
 	ekKinds
 )
 
@@ -285,6 +286,8 @@ func VerifTxBlock() {
 	n := 1 + vrt.Choose("nentries", maxEntries)
 	var entries []factom.Entry
 	var specs []vrtEntrySpec
+	var twin *factom.Bytes32
+	d16 := false // the block carries a malleated copy of a validly RCD-e signed entry (known finding D16)
 	fresh := byte(2)
 	for i := 0; i < n; i++ {
 		var kind int
@@ -310,6 +313,25 @@ func VerifTxBlock() {
 		}
 		h := vrtHash(fresh)
 		fresh++
+		if kind == ekMalleatedTwin {
+			// the holder signs ONE transfer; a third party re-publishes it with the signature's last
+			// byte changed (new bytes, new entry hash). One authorisation may take effect once.
+			e1, sp1 := vrtMakeEntry(ekRCDE, h, blockTime, height, vrt.URange("amt", 0, vrtMaxBal/4), B)
+			e2 := e1
+			vrt.MalleateSig(&e2)
+			e2.Hash = vrtHash(fresh)
+			fresh++
+			vrt.SealEntry(&e2)
+			sp2 := sp1
+			sp2.kind, sp2.hash, sp2.valid = ekMalleatedTwin, e2.Hash, false
+			entries = append(entries, e1, e2)
+			specs = append(specs, sp1, sp2)
+			if sp1.valid {
+				d16 = true
+				twin = e2.Hash
+			}
+			continue
+		}
 		e, sp := vrtMakeEntry(kind, h, blockTime, height, vrt.URange("amt", 0, vrtMaxBal/4), B)
 		entries = append(entries, e)
 		specs = append(specs, sp)
@@ -388,6 +410,18 @@ func VerifTxBlock() {
 		pre[k] = v
 	}
 	ref.apply(height, specs, B)
+	if d16 {
+		// Known finding D16: the library verifies only the first 64 bytes of an RCD-e signature and
+		// replay protection is keyed on the entry hash, so the altered copy is a new, valid entry:
+		// the holder's single authorisation is executed again (once per copy, while the salt is fresh).
+		vrt.Cover("malleated-twin")
+		for _, a := range []factom.FAAddress{A, Ae, B} {
+			vrt.Assert("C05.one-signed-authorisation-moves-funds-once@D16", uint64(vrtBalance(tx, a, fat2.PTickerUSD)) == ref.bal[a])
+		}
+		rows, _ := vrtStatus(tx, twin)
+		vrt.Assert("C06.copy-of-an-executed-authorisation-is-not-a-new-entry@D16", rows == 0)
+		return
+	}
 
 	anyValid := false
 	for _, s := range specs {
